@@ -87,3 +87,44 @@ Print Assumptions C04_supply_independent.
 Example C04_point_one_plus_point_two :
   run_func no_engines "Add" [RNum (mkDec 2 (-1))] (VDec (mkDec 1 (-1))) = Ok (VDec (mkDec 3 (-1))).
 Proof. vm_compute. reflexivity. Qed.
+
+(** End to end (Proofs/E2E.v): the same statements for whole queries `$.a.F(args)`
+    evaluated on documents (maps with any key type, or structs) whose fields
+    are ANY Go carriers of the numbers / plain strings involved, with every
+    argument supplied as a literal or as a path `$.b` into the document;
+    [param_denotes] says what an argument resolves to, [obj_row] what a key
+    holds, [decides o P]: o is a boolean that is true exactly when P. *)
+From Coq Require Import QArith Qabs.
+From Mpath.Generated Require Import FuncTable.
+From Mpath.Proofs Require C06 C06b E2E.
+Import Mpath.Proofs.C06 Mpath.Proofs.C06b Mpath.Proofs.E2E.
+
+Theorem C04_E2E_arith :
+  forall (uni : Lexer.uclass) (eng : engines) (fuel : nat) (inv me q : bool) (u1 u2 u3 : str) (finv : bool) (cur : gv) (a : str) (p : Ast.param) (doc ga : gv) (da db : dec) (qa qb : Q), obj_row a doc ga -> num_carrier ga da -> source_value ga = Some qa -> param_denotes doc p (RNum db) -> dval db == qb -> (exists r : dec, Eval.eval uni eng (S (S (S (S (S fuel))))) (Eval.NPath (call_path inv me a q u1 finv "Add" [p] u2 u3)) cur doc = Ok (VDec r) /\ dval r == qa + qb) /\ (exists r : dec, Eval.eval uni eng (S (S (S (S (S fuel))))) (Eval.NPath (call_path inv me a q u1 finv "Subtract" [p] u2 u3)) cur doc = Ok (VDec r) /\ dval r == qa - qb) /\ (exists r : dec, Eval.eval uni eng (S (S (S (S (S fuel))))) (Eval.NPath (call_path inv me a q u1 finv "Multiply" [p] u2 u3)) cur doc = Ok (VDec r) /\ dval r == qa * qb).
+Proof. exact Mpath.Proofs.E2E.E2E_arith. Qed.
+Print Assumptions C04_E2E_arith.
+
+Theorem C04_E2E_arith_path :
+  forall (uni : Lexer.uclass) (eng : engines) (fuel : nat) (inv me q : bool) (u1 u2 u3 : str) (finv : bool) (cur : gv) (pinv pme pq : bool) (pu pus a b : str) (doc ga gb : gv) (da db : dec) (qa qb : Q), obj_row a doc ga -> obj_row b doc gb -> num_carrier ga da -> num_carrier gb db -> source_value ga = Some qa -> source_value gb = Some qb -> (exists r : dec, Eval.eval uni eng (S (S (S (S (S fuel))))) (Eval.NPath (call_path inv me a q u1 finv "Add" [Ast.FPPath (key_path pinv pme b pq pu pus)] u2 u3)) cur doc = Ok (VDec r) /\ dval r == qa + qb) /\ (exists r : dec, Eval.eval uni eng (S (S (S (S (S fuel))))) (Eval.NPath (call_path inv me a q u1 finv "Subtract" [Ast.FPPath (key_path pinv pme b pq pu pus)] u2 u3)) cur doc = Ok (VDec r) /\ dval r == qa - qb) /\ (exists r : dec, Eval.eval uni eng (S (S (S (S (S fuel))))) (Eval.NPath (call_path inv me a q u1 finv "Multiply" [Ast.FPPath (key_path pinv pme b pq pu pus)] u2 u3)) cur doc = Ok (VDec r) /\ dval r == qa * qb).
+Proof. exact Mpath.Proofs.E2E.E2E_arith_path. Qed.
+Print Assumptions C04_E2E_arith_path.
+
+Theorem C04_E2E_arith_literal :
+  forall (uni : Lexer.uclass) (eng : engines) (fuel : nat) (inv me q : bool) (u1 u2 u3 : str) (finv : bool) (cur : gv) (a : str) (d : dec) (doc ga : gv) (da : dec) (qa : Q), obj_row a doc ga -> num_carrier ga da -> source_value ga = Some qa -> (exists r : dec, Eval.eval uni eng (S (S (S (S (S fuel))))) (Eval.NPath (call_path inv me a q u1 finv "Add" [Ast.FPNum d] u2 u3)) cur doc = Ok (VDec r) /\ dval r == qa + dval d) /\ (exists r : dec, Eval.eval uni eng (S (S (S (S (S fuel))))) (Eval.NPath (call_path inv me a q u1 finv "Subtract" [Ast.FPNum d] u2 u3)) cur doc = Ok (VDec r) /\ dval r == qa - dval d) /\ (exists r : dec, Eval.eval uni eng (S (S (S (S (S fuel))))) (Eval.NPath (call_path inv me a q u1 finv "Multiply" [Ast.FPNum d] u2 u3)) cur doc = Ok (VDec r) /\ dval r == qa * dval d).
+Proof. exact Mpath.Proofs.E2E.E2E_arith_literal. Qed.
+Print Assumptions C04_E2E_arith_literal.
+
+Theorem C04_E2E_divide :
+  forall (uni : Lexer.uclass) (eng : engines) (fuel : nat) (inv me q : bool) (u1 u2 u3 : str) (finv : bool) (cur : gv) (a : str) (p : Ast.param) (doc ga : gv) (da db : dec) (qa qb : Q), obj_row a doc ga -> num_carrier ga da -> source_value ga = Some qa -> param_denotes doc p (RNum db) -> dval db == qb -> coef db <> 0%Z -> exists r : dec, Eval.eval uni eng (S (S (S (S (S fuel))))) (Eval.NPath (call_path inv me a q u1 finv "Divide" [p] u2 u3)) cur doc = Ok (VDec r) /\ Qabs (dval r - qa / qb) <= (1 # 2) * pow10Q (-16).
+Proof. exact Mpath.Proofs.E2E.E2E_divide. Qed.
+Print Assumptions C04_E2E_divide.
+
+Theorem C04_E2E_arith_storage_invariant :
+  forall (uni : Lexer.uclass) (eng : engines) (fuel : nat) (inv me q : bool) (u1 u2 u3 : str) (finv : bool) (cur : gv) (a : str) (p p' : Ast.param) (doc doc' ga ga' : gv) (da da' db db' : dec) (qa qa' : Q), obj_row a doc ga -> obj_row a doc' ga' -> num_carrier ga da -> num_carrier ga' da' -> source_value ga = Some qa -> source_value ga' = Some qa' -> qa == qa' -> param_denotes doc p (RNum db) -> param_denotes doc' p' (RNum db') -> dval db == dval db' -> forall name : string, In name arithmetic_names -> exists r r' : dec, Eval.eval uni eng (S (S (S (S (S fuel))))) (Eval.NPath (call_path inv me a q u1 finv name [p] u2 u3)) cur doc = Ok (VDec r) /\ Eval.eval uni eng (S (S (S (S (S fuel))))) (Eval.NPath (call_path inv me a q u1 finv name [p'] u2 u3)) cur doc' = Ok (VDec r') /\ dval r == dval r'.
+Proof. exact Mpath.Proofs.E2E.E2E_arith_storage_invariant. Qed.
+Print Assumptions C04_E2E_arith_storage_invariant.
+
+Theorem C04_E2E_numeric_string_argument :
+  forall (uni : Lexer.uclass) (eng : engines) (fuel : nat) (inv me q : bool) (u1 u2 u3 : str) (finv : bool) (cur : gv) (a : str) (p : Ast.param) (doc ga : gv) (da : dec) (qa : Q) (t : str) (db : dec), obj_row a doc ga -> num_carrier ga da -> source_value ga = Some qa -> param_denotes doc p (RStr t) -> dec_of_string t = Some db -> (exists r : dec, Eval.eval uni eng (S (S (S (S (S fuel))))) (Eval.NPath (call_path inv me a q u1 finv "Add" [p] u2 u3)) cur doc = Ok (VDec r) /\ dval r == qa + dval db) /\ (exists r : dec, Eval.eval uni eng (S (S (S (S (S fuel))))) (Eval.NPath (call_path inv me a q u1 finv "Subtract" [p] u2 u3)) cur doc = Ok (VDec r) /\ dval r == qa - dval db) /\ (exists r : dec, Eval.eval uni eng (S (S (S (S (S fuel))))) (Eval.NPath (call_path inv me a q u1 finv "Multiply" [p] u2 u3)) cur doc = Ok (VDec r) /\ dval r == qa * dval db) /\ decides (Eval.eval uni eng (S (S (S (S (S fuel))))) (Eval.NPath (call_path inv me a q u1 finv "Less" [p] u2 u3)) cur doc) (qa < dval db) /\ decides (Eval.eval uni eng (S (S (S (S (S fuel))))) (Eval.NPath (call_path inv me a q u1 finv "LessOrEqual" [p] u2 u3)) cur doc) (qa <= dval db) /\ decides (Eval.eval uni eng (S (S (S (S (S fuel))))) (Eval.NPath (call_path inv me a q u1 finv "Greater" [p] u2 u3)) cur doc) (dval db < qa) /\ decides (Eval.eval uni eng (S (S (S (S (S fuel))))) (Eval.NPath (call_path inv me a q u1 finv "GreaterOrEqual" [p] u2 u3)) cur doc) (dval db <= qa) /\ Eval.eval uni eng (S (S (S (S (S fuel))))) (Eval.NPath (call_path inv me a q u1 finv "Equal" [p] u2 u3)) cur doc = Ok (vbool false) /\ Eval.eval uni eng (S (S (S (S (S fuel))))) (Eval.NPath (call_path inv me a q u1 finv "NotEqual" [p] u2 u3)) cur doc = Ok (vbool true).
+Proof. exact Mpath.Proofs.E2E.E2E_numeric_string_argument. Qed.
+Print Assumptions C04_E2E_numeric_string_argument.
